@@ -118,7 +118,8 @@ def correspond(tier):
     from . import psoracles
     ct = psoracles.suite_same_temperature(tier, "C01")
     cr = psoracles.suite_records_folded(tier)
-    return [c, cx, cp, ct, cr] + _dependency_suites(tier)
+    cm = psoracles.suite_modes(tier)
+    return [c, cx, cp, ct, cr, cm] + _dependency_suites(tier)
 
 
 def _dependency_suites(tier):
